@@ -35,6 +35,10 @@ def cases(tier):
     for k in range(1, kmax + 1):
         for sub in itertools.combinations(range(len(alphabet)), k):
             out.append(dict(ranges=[[alphabet[i][0], alphabet[i][1], i] for i in sub], api_inf=False))
+    # many ranges (piecewise potentials with one polynomial per knot interval): 9..14 ranges, structured listing orders
+    for n in (9, 10, 12, 14):
+        for pat in range(3):
+            out.append(dict(ranges=[[('>', '>=')[(k + pat) % 2 if pat < 2 else 0], 0.25 * k + (0.0 if k % 3 or pat == 0 else 0.125), k] for k in range(n)], api_inf=False))
     if tier != 'quick':
         alpha2 = [('>', None), ('>=', None)] + alphabet
         for k in range(1, 5):
@@ -84,7 +88,17 @@ def plain_quad(q):
     return f
 
 
-def build_api(order, direct, default=None, setter=False, numeric=False, zero_q=None, shared=False):
+def deriv_only_quad(q):
+    """the quadratic as a callable that offers .deriv but no .deriv2"""
+    c0, c1, c2 = quad(q)['params']
+
+    def f(r):
+        return c0 + c1 * r + c2 * r * r
+    f.deriv = lambda r: c1 + 2 * c2 * r
+    return f
+
+
+def build_api(order, direct, default=None, setter=False, numeric=False, zero_q=None, shared=False, derivonly=False):
     from atsim.potentials import create_Multi_Range_Potential_Form, Multi_Range_Defn
     from atsim.potentials._multi_range_potential_form import Multi_Range_Potential_Form_Deriv2
     from atsim.potentials import potentialforms as pf
@@ -92,6 +106,8 @@ def build_api(order, direct, default=None, setter=False, numeric=False, zero_q=N
     def callable_for(q):
         if q == zero_q:
             return pf.zero()
+        if derivonly and q % 2:
+            return deriv_only_quad(q)
         return plain_quad(q) if (numeric and q % 2) else R.api_item(quad(q))
     defs = [Multi_Range_Defn(m, (float('-inf') if s is None else s), callable_for(q)) for m, s, q in order]
     kw = {} if default is None else {'default_value': default}
@@ -139,15 +155,20 @@ def run_case(case):
 
     def V(sig, msg):
         viol.append(dict(sig=sig, msg=msg, detail={}))
-    perms = list(itertools.permutations(ranges))
+    if len(ranges) <= 5:
+        perms = list(itertools.permutations(ranges))
+    else:
+        half = len(ranges) // 2
+        perms = [tuple(ranges), tuple(ranges[::-1]), tuple(ranges[half:] + ranges[:half]), tuple(ranges[::2] + ranges[1::2]), tuple(ranges[1::2][::-1] + ranges[::2])]
     sweeps = [rs, rs[::-1], rs[::2] + rs[1::2][::-1]]
     for order in perms:
         objs = [('class', build_api(order, True)), ('factory', build_api(order, False)),
                 ('class default_value=25', build_api(order, True, default=25.0)), ('range_defns setter', build_api(order, True, setter=True)),
                 ('factory with numerical ranges', build_api(order, False, numeric=True)),
+                ('factory with deriv-only ranges', build_api(order, False, derivonly=True)),
                 ('class default_value=25 and a zero() range', build_api(order, True, default=25.0, zero_q=order[0][2])),
                 ('class, range definitions shared with other potentials', build_api(order, True, shared=True))]
-        if not case['api_inf']:
+        if not case['api_inf'] and build_cfg(order, False) is not None:
             objs.append(('potable', build_cfg(order, False)))
             if order[0][0] == '>' and order[0][1] == 0.0:
                 objs.append(('potable-unmarked', build_cfg(order, True)))
@@ -155,6 +176,19 @@ def run_case(case):
             for sw, sweep in enumerate(sweeps):
                 for r in sweep:
                     evals += 1
+                    if 'deriv-only' in how:
+                        # ranges with odd code offer .deriv only: the composite offers deriv2 iff some range does (whatever the listing order)
+                        want2 = any(q % 2 == 0 for _m, _s, q in order)
+                        if hasattr(f, 'deriv2') != want2 or not hasattr(f, 'deriv'):
+                            V('deriv2-offer-depends-on-listing', '%s, ranges listed %r: deriv2 %s although %s' % (how, [(m, s, q) for m, s, q in order], 'offered' if hasattr(f, 'deriv2') else 'not offered',
+                                                                                                          'a range offers it' if want2 else 'no range offers it'))
+                            break
+                        got = (f(r), f.deriv(r), f.deriv2(r) if want2 else None)
+                        ok = any(close(got[0], e3[0]) and close(got[1], e3[1]) and (got[2] is None or abs(got[2] - e3[2]) <= 1e-5 * (1 + abs(e3[2]) + abs(e3[1]))) for e3 in exp[r])
+                        if not ok:
+                            V('wrong-range', '%s, ranges listed %r, r=%r: (value, deriv, deriv2) = %r, allowed %r' % (how, [(m, s) for m, s, _q in order], r, got, exp[r]))
+                            break
+                        continue
                     if 'numerical' in how and not hasattr(f, 'deriv'):
                         # no range offers an analytic derivative: the composite documentedly offers none either
                         if any(q % 2 == 0 for _m, _s, q in order):
